@@ -117,6 +117,20 @@ def decide(res, pr, bad, new, cases, exe, work, st):
         what.append("correspondence srvstorage model/implementation differs on %d cases (first: %s)" % (len(bad), cases[bad[0]].line[:300]))
     if bad is None:
         what.append("model runner does not build")
+    if not new:
+        # directed search: many more generated traces on the recording engine, judged only
+        for k in range(6):
+            g = dict(seed=res.seed + 1000 + k, n=1500, len=18, safe=(k % 2 == 0))
+            extra = [sl.Case("srv", l) for l in sl.run_harness(exe, "srv", "rec", gen=g, work=work)]
+            res.cov["evaluations"] += len(extra)
+            for c in extra:
+                nf = sl.new_fails(sl.judge_srv(c))
+                if nf:
+                    cases.append(c)
+                    new.append((len(cases) - 1, nf))
+                    break
+            if new:
+                break
     if new:
         i, nf = new[0]
         c = cases[i]
